@@ -94,7 +94,7 @@ ADDED = {
  "C06": " Also: no error return of CompleteMultipartUpload is reachable after a store into the upload's parts; xmlDecodeBody decodes the whole request body. (shared) merging metadata never overrides a value the request sent.",
  "C07": " Also: no serving-time mutable map / sync.Map in the stateless layers; releases through unlock function values are modelled.",
  "C08": " Also (shared): nothing is wrapped between the body / chunk decoder and the hashing reader; a refused complete has not modified the pending upload. Error discipline in path form; every sign test of a parsed length is `< 0`.",
- "C09": " Also (shared): every mutex acquire is released on every path (L1) and the lock-order graph is acyclic (L3) — a kept lock or a cycle is a hang. A pointer local that is nil on a feasible edge is dereferenced only under a non-nil guard; a skiplist lookup's result is asserted only where the lookup reported found.",
+ "C09": " Also (shared): every mutex acquire is released on every path (L1) and the lock-order graph is acyclic (L3) — a kept lock or a cycle is a hang. A pointer local that is nil on a feasible edge is dereferenced only under a non-nil guard; a skiplist lookup's result is asserted only where the lookup reported found; a nilable lookup result that the function nil-tests somewhere is dereferenced only under such a test (R09.1r).",
  "C10": " Also: every file the fs backends create under a name of their own choosing is created exclusively (found and repaired F31); the keys of a multi-object delete reach the backend untransformed; the host middlewares only prepend the bucket to the path. baseFs is read only in construction; an own-named file is removed only after its exclusive create succeeded; an upload id is honoured only for its own bucket and key; the fs delete path works on the addressed path.",
  "C11": " Also: in the fs backends the file positioned at the range start is handed to nothing but the length-limiting wrapper. With a range present the fs backends' length-limiting wrapper depends on no further condition on the range.",
  "C12": " Also (shared): ReadAll drives the decoder to the end of the stream for every declared size, including 0.",
